@@ -19,12 +19,14 @@ package main
 import (
 	"bufio"
 	"bytes"
+	"context"
 	"encoding/binary"
 	"fmt"
 	"io"
 	"net"
 	"os"
 	osexec "os/exec"
+	"sort"
 	"strings"
 	"sync"
 	"time"
@@ -265,6 +267,11 @@ func (p *rxPeer) serve() {
 			}
 			p.mu.Unlock()
 			p.srv.Write(respWire(p.rD.flag, int(uint16(f.stream)), 0x02, p.rD.payload))
+		case f.op == 0x05:
+			// Conn.heartBeat sends OPTIONS one second after the startup (the scenarios never do, once
+			// started): answered here, never taken for a request of the scenario — a scenario that takes
+			// longer than a second on a loaded machine must not change its answer
+			p.srv.Write(respWire(0, int(uint16(f.stream)), 0x06, supportedBody(p.sup)))
 		default:
 			p.reqs <- f
 		}
@@ -827,7 +834,226 @@ func genNegoh(r *vh.Rng) (string, string) {
 }
 
 // ---------- op negos: the same through a real Session (pool fill / refill) ----------
+//
+// negos <codec> <numconns> <step>…: a real Session (host pool of numconns connections, no control
+// connection) whose HostDialer is the scripted node. Steps: `a<sup>` the node advertises <sup> from now
+// on · `s` the session is created (the pool fills) · `k<i>` the node drops the i-th live connection (in
+// the order of establishment): the pool refills. After `s` and `k` the answer lists, for the live
+// connections, what the node saw: classes `[opt=…,startup=…,kept=…,qflag=…]x<count>`, negotiated first.
+
+type negosNode struct {
+	mu    sync.Mutex
+	sup   []kv
+	peers []*rxPeer
+}
+
+func (n *negosNode) DialHost(ctx context.Context, host *gocql.HostInfo) (*gocql.DialedHost, error) {
+	n.mu.Lock()
+	defer n.mu.Unlock()
+	peer := newRxPeer(n.sup, frameD{payload: supportedBody(n.sup)}, frameD{})
+	n.peers = append(n.peers, peer)
+	return &gocql.DialedHost{Conn: peer.cli, DisableCoalesce: true}, nil
+}
+
+// livePeers: the peers whose connection is in the session's pool now, in the order of establishment
+func (n *negosNode) livePeers(conns []*gocql.Conn) []*rxPeer {
+	n.mu.Lock()
+	defer n.mu.Unlock()
+	var out []*rxPeer
+	for _, p := range n.peers {
+		select {
+		case <-p.done:
+			continue
+		default:
+		}
+		p.mu.Lock()
+		st := p.started
+		p.mu.Unlock()
+		if st {
+			out = append(out, p)
+		}
+	}
+	return out
+}
 
 func execNegos(codec string, numConns int, steps []string) string {
-	return "bad-op"
+	if numConns < 1 || numConns > 4 {
+		return "bad-op"
+	}
+	node := &negosNode{}
+	var sess *gocql.Session
+	defer func() {
+		if sess != nil {
+			sess.Close()
+		}
+		node.mu.Lock()
+		peers := append([]*rxPeer{}, node.peers...)
+		node.mu.Unlock()
+		for _, p := range peers {
+			p.close()
+		}
+	}()
+	// settle: wait (on the condition, nudging the pool) until the pool holds numConns connections
+	settle := func() ([]*gocql.Conn, bool) {
+		deadline := time.Now().Add(watchdog)
+		for {
+			conns := gocql.VerifC18eSessionConns(sess, true)
+			if len(conns) == numConns && len(node.livePeers(conns)) == numConns {
+				return conns, true
+			}
+			if time.Now().After(deadline) {
+				dumpGoroutines("negos: the pool did not reach its size")
+				return conns, false
+			}
+			time.Sleep(time.Millisecond)
+		}
+	}
+	observe := func() string {
+		conns, ok := settle()
+		if !ok {
+			return fmt.Sprintf("timeout:live=%d", len(conns))
+		}
+		// one REGISTER request on every connection of the pool, seen by its peer
+		count := map[string]int{}
+		peers := node.livePeers(conns)
+		for _, c := range conns {
+			call := &rxCall{ret: make(chan struct{})}
+			go func(c *gocql.Conn) {
+				defer close(call.ret)
+				call.pend, call.err = gocql.VerifC18dExec(c, "register", "E", 10*time.Minute)
+			}(c)
+			// the request arrives at exactly one of the live peers (or the call returns with an error)
+			var got *rxPeer
+			var sf srvFrame
+			deadline := time.Now().Add(watchdog)
+			failed := false
+			for got == nil && !failed {
+				for _, p := range peers {
+					select {
+					case f := <-p.reqs:
+						got, sf = p, f
+					default:
+					}
+					if got != nil {
+						break
+					}
+				}
+				if got != nil {
+					break
+				}
+				select {
+				case <-call.ret:
+					failed = true
+				default:
+					if time.Now().After(deadline) {
+						dumpGoroutines("negos: request never reached a peer")
+						return "timeout"
+					}
+					time.Sleep(200 * time.Microsecond)
+				}
+			}
+			if got == nil {
+				return "request-failed:" + rxErrClass(call.err)
+			}
+			qflag := sf.flags & 1
+			body := sf.body
+			if qflag == 1 && codec != "none" {
+				if d, err := indepDecode(codec, body); err == nil {
+					body = d
+				}
+			}
+			got.srv.Write(respWire(0, int(uint16(sf.stream)), 0x02, nil))
+			select {
+			case <-call.ret:
+			case <-time.After(watchdog):
+				dumpGoroutines("negos: client call did not return")
+				return "timeout"
+			}
+			got.mu.Lock()
+			opt := 0
+			if got.optSeen {
+				opt = 1
+			}
+			obs := fmt.Sprintf("opt=%d,startup=%s,kept=%v,qflag=%d", opt, got.startComp, gocql.VerifC18CompressorName(c) != "", qflag)
+			if !bytes.Equal(body, []byte{0, 1, 0, 1, 'E'}) || got.optFlags&1 != 0 || got.startFlags&1 != 0 || call.err != nil {
+				obs += ",ANOMALY"
+			}
+			got.mu.Unlock()
+			count[obs]++
+		}
+		var keys []string
+		for k := range count {
+			keys = append(keys, k)
+		}
+		sort.Slice(keys, func(i, j int) bool { // negotiated first, then by text
+			a, b := strings.Contains(keys[i], "kept=true"), strings.Contains(keys[j], "kept=true")
+			if a != b {
+				return a
+			}
+			return keys[i] < keys[j]
+		})
+		out := fmt.Sprintf("live=%d", len(conns))
+		for _, k := range keys {
+			out += fmt.Sprintf(":[%s]x%d", k, count[k])
+		}
+		return out
+	}
+	var ans []string
+	for _, st := range steps {
+		switch {
+		case st == "":
+			ans = append(ans, "bad-step")
+		case st[0] == 'a':
+			node.mu.Lock()
+			node.sup = parseSupported(st[1:])
+			node.mu.Unlock()
+			ans = append(ans, "ok")
+		case st == "s" && sess == nil:
+			var err error
+			sess, err = gocql.VerifC18eSession(node, compressor(codec), numConns, 10*time.Minute)
+			if err != nil {
+				sess = nil
+				ans = append(ans, "session-"+rxErrClass(err))
+				continue
+			}
+			ans = append(ans, observe())
+		case st[0] == 'k' && sess != nil:
+			conns, ok := settle()
+			peers := node.livePeers(conns)
+			k := atoi(st[1:])
+			if !ok || k < 0 || k >= len(peers) {
+				ans = append(ans, "bad-step")
+				continue
+			}
+			peers[k].srv.Close()
+			select {
+			case <-peers[k].done:
+			case <-time.After(watchdog):
+				dumpGoroutines("negos: peer goroutine did not end")
+			}
+			// the pool notices the loss (reader goroutine -> closeWithError -> HandleError) and refills
+			ans = append(ans, observe())
+		default:
+			ans = append(ans, "bad-step")
+		}
+	}
+	return strings.Join(ans, " ")
+}
+
+func genNegos(r *vh.Rng) (string, string) {
+	codec := compNames[1+r.Intn(2)]
+	if r.Intn(6) == 0 {
+		codec = "none"
+	}
+	nc := 1 + r.Intn(3)
+	advs := []string{"COMPRESSION=" + codec, "COMPRESSION=" + otherCodec(codec), "CQL_VERSION=3.4.5", "COMPRESSION=snappy,lz4", "CQL_VERSION=3.4.5;COMPRESSION="}
+	toks := []string{"negos", codec, fmt.Sprint(nc), "a" + advs[r.Intn(len(advs))], "s"}
+	n := 1 + r.Intn(3)
+	for i := 0; i < n; i++ {
+		if r.Intn(4) != 0 {
+			toks = append(toks, "a"+advs[r.Intn(len(advs))])
+		}
+		toks = append(toks, fmt.Sprintf("k%d", r.Intn(nc)))
+	}
+	return strings.Join(toks, " "), fmt.Sprintf("negos/%s/pool%d/refills%d", codec, nc, n)
 }
